@@ -263,6 +263,25 @@ func TestVF_C01(t *testing.T) {
 				alts = append(alts, alter{fmt.Sprintf("a_disclosed[%d]:=7", i), func(p *ProofD) bool { p.ADisclosed[i].SetInt64(7); return true }})
 			}
 		}
+		// the disclosed value shifted by a multiple of the group's exponent 2p'q' (known to this holder):
+		// R_i^(m - 2p'q') = R_i^m, so the equation still holds while another (here: negative, hence
+		// only presentable in memory) value is reported
+		for _, i := range c.D {
+			i := i
+			if ms[i].BitLen() > int(lm) {
+				continue
+			}
+			for _, k := range []int64{-2, -4, 2} {
+				k := k
+				alts = append(alts, alter{fmt.Sprintf("a_disclosed[%d]%+d*ord", i, k), func(p *ProofD) bool {
+					if p.ADisclosed[i] == nil {
+						return false
+					}
+					p.ADisclosed[i] = new(big.Int).Add(p.ADisclosed[i], new(big.Int).Mul(bi(k), c.kp.Sk.Order))
+					return true
+				}})
+			}
+		}
 		if len(c.D) >= 2 {
 			i, j := c.D[0], c.D[len(c.D)-1]
 			if expOf(ms[i], lm).Cmp(expOf(ms[j], lm)) != 0 {
